@@ -15,10 +15,11 @@ git apply "$d/patch.diff"
 echo "== repo tests with patch"; PYTHONPATH="$R" /venv/bin/python -m pytest -q -p no:cacheprovider --continue-on-collection-errors 2>&1 | tail -1
 echo "== demo with patch"; (cd "$R" && PYTHONPATH="$R" PYTHONWARNINGS=ignore /venv/bin/python "$demo" 2>&1 | tail -2; echo "exit=${PIPESTATUS[0]}")
 cd /verif
+OUT=$(mktemp -d /tmp/hxv_seeded.XXXXXX)   # replays and evidence of a mutated tree never land in /verif
 for i in $ids; do
-  out=$(HABUTAX_REPO="$R" ./check $i --tier quick 2>&1)
+  out=$(HXV_OUT_DIR="$OUT" HABUTAX_REPO="$R" ./check $i --tier quick 2>&1)
   echo "== $i: $(echo "$out" | grep -c '^VIOLATION') violation lines; $(echo "$out" | tail -1)"
   echo "$out" | grep "violation bucket" | head -3 | cut -c1-300
 done
 git -C "$R" checkout -- .
-rm -rf /verif/replays
+rm -rf "$OUT"
